@@ -3,6 +3,7 @@ CONSTANTS N = 5
   MaxDepth = 1
   P = 2
   MaxSubs = 1
+  AutoEvery = 0
 SPECIFICATION SpecCore
 INVARIANTS TypeOK TipMaxWork MarkedExcluded StreamReconstructs OnlyBestAnnounced
 PROPERTIES RefusalChangesNothing CleanChangesNothing NoWorkLoss
